@@ -40,16 +40,27 @@ structure OK (g : MCfg) : Prop where
   noise : NoiseFits g.cap g.recs
   cut : g.K.Cut
   fuel : g.cap / 32 + 8 ≤ 1000
+
+/-- `OK` without the model-fuel bound: the `4·cap` term of the handler fuel pays for `cap/32` (all the lemmas
+below need only this). -/
+structure OKu (g : MCfg) : Prop where
+  wf : WellFormedPreamble g.p g.recs
+  role : g.p.role = 1 ∨ g.p.role = 3
+  pairs : ∀ q ∈ g.p.pairs, (NV.enc q).length ≤ g.cap
+  noise : NoiseFits g.cap g.recs
+  cut : g.K.Cut
+
+theorem OK.toU {g : MCfg} (ok : g.OK) : g.OKu := ⟨ok.wf, ok.role, ok.pairs, ok.noise, ok.cut⟩
 end MCfg
 
-theorem mpid_lt {g : MCfg} (ok : g.OK) : 0 < g.p.id ∧ g.p.id < 65536 := by
+theorem mpid_lt {g : MCfg} (ok : g.OKu) : 0 < g.p.id ∧ g.p.id < 65536 := by
   have h := ok.wf
   generalize g.recs = rs at h
   induction h with
   | noise r hn t ih => exact ih
   | «begin» pad res body5 hb hp hid hrole hl t => exact hid
 
-theorem mns {g : MCfg} (ok : g.OK) : NoStuckW g.cap g.mc g.W := noStuck_of ok.wf g.Y g.b g.mc ok.pairs ok.noise
+theorem mns {g : MCfg} (ok : g.OKu) : NoStuckW g.cap g.mc g.W := noStuck_of ok.wf g.Y g.b g.mc ok.pairs ok.noise
 
 theorem rem_leT {K : RCtx} (hK : K.Cut) {r : AReq} {G fut dC dO : Bytes} (h : RInv K r G fut dC dO) :
     K.C.length ≤ dC.length + K.cap + fut.length := by
@@ -120,7 +131,7 @@ theorem MRes.mono {g : MCfg} {N M : Nat} {c : Conn} (h : MRes g N c) (hm : N ≤
   exact ⟨c', r, hh.mono hm, hl2, ho⟩
 
 /-- One poll that starts inside the handler's `readAll`. -/
-theorem hread_poll {g : MCfg} (ok : g.OK) {c : Conn} {r : AReq} {sub : HSub} {dO : Bytes}
+theorem hread_poll {g : MCfg} (ok : g.OKu) {c : Conn} {r : AReq} {sub : HSub} {dO : Bytes}
     (hph : c.phase = .handler r { ops := .readAll :: g.rest, sub := sub, writers := [], propagate := true })
     (hs : RSt g.K g.L1 [] r c.env.mutex c.env.tr (accOf sub) dO) (hb : Ben c.env.tr)
     (hem : c.env.tr.endMode = .eof) (hev : MEv1 g c.env.tr) (hsc : c.scripts = g.more) :
@@ -128,11 +139,12 @@ theorem hread_poll {g : MCfg} (ok : g.OK) {c : Conn} {r : AReq} {sub : HSub} {dO
   have hstep := C07.handler_step c r _ hph
   obtain ⟨G0, hi0⟩ := hs.inv
   have hrl := rem_leT ok.cut hi0
-  have hfu := ok.fuel
+  have hfu := handlerFuel_ge' c.env r
+  have hcapr := hi0.capK
   have hcapK : g.K.cap = g.cap := rfl
   rcases readAll_runT ok.cut (L := g.L1) (P := []) g.rest [] true
       (2 * ((g.K.C.length - (accOf sub).length) / 64) + 2 * c.env.tr.input.length + 2) (handlerFuel c.env r)
-      r sub c.env dO 1 (by omega) (by unfold handlerFuel; omega) (fun h => by omega) hb hem hs with
+      r sub c.env dO 1 (by omega) (by omega) (fun h => by omega) hb hem hs with
     ⟨r', acc', e', dO', d1, d3, d5, d6, d8, d9⟩ |
     ⟨r', e', f', d1, _, d3, d4, _, _, _, d8, d9⟩
   · rw [d1] at hstep
@@ -157,7 +169,7 @@ theorem hread_poll {g : MCfg} (ok : g.OK) {c : Conn} {r : AReq} {sub : HSub} {dO
 
 /-- **The handler start** on the cut wire: `parse_request` has consumed `F1`, its request parser is
 `done`, the final `write_all` of its replies completes. -/
-theorem mhandler_start {g : MCfg} (ok : g.OK) {c1 : Conn} {F1 rest : Bytes} {t' : Transport}
+theorem mhandler_start {g : MCfg} (ok : g.OKu) {c1 : Conn} {F1 rest : Bytes} {t' : Transport}
     (hph : c1.phase = .parseReq (track g.cap g.mc F1) (.writing rest true))
     (hw : F1 ++ c1.env.tr.input = g.W) (hstop1 : c1.stop = false)
     (hrem1 : (run .header F1 g.mc).rem.length ≤ g.cap)
@@ -190,7 +202,7 @@ theorem mhandler_start {g : MCfg} (ok : g.OK) {c1 : Conn} {F1 rest : Bytes} {t' 
     exact ⟨e1, hFe, hwire, by rw [hlog, hrun]; rfl, he1len, hstep⟩
   · rw [hf] at hnf; cases hnf
 
-theorem mrinv_start {g : MCfg} (ok : g.OK) {e1 input : Bytes}
+theorem mrinv_start {g : MCfg} (ok : g.OKu) {e1 input : Bytes}
     (hlen : e1.length ≤ g.cap) (hwire : e1 ++ input = g.Y) :
     RInv g.K (AReq.new (Str.Parser.fromParser g.cap g.p.request e1 g.mc)) e1 input [] [] := by
   have hstart : C03SI.Start g.K.E (Str.Parser.fromParser g.cap g.p.request e1 g.mc) :=
@@ -201,7 +213,7 @@ theorem mrinv_start {g : MCfg} (ok : g.OK) {e1 input : Bytes}
   rw [this]; rfl
 
 /-- A poll that is inside `parse_request`. -/
-theorem mparse_poll {g : MCfg} (ok : g.OK) {c : Conn} {F : Bytes} (hst : PSt g.cap g.mc g.W g.L0 [] c F)
+theorem mparse_poll {g : MCfg} (ok : g.OKu) {c : Conn} {F : Bytes} (hst : PSt g.cap g.mc g.W g.L0 [] c F)
     (hem : c.env.tr.endMode = .eof)
     (hsc : c.scripts = (.readAll :: g.rest, true) :: g.more) (hm : c.env.mutex = none)
     (hev : hsCount c.env.tr.events = g.hs0) : MRes g (2 * c.env.tr.input.length + 6) c := by
@@ -256,7 +268,7 @@ theorem mparse_poll {g : MCfg} (ok : g.OK) {c : Conn} {F : Bytes} (hst : PSt g.c
       simp only [List.length_append] at *
       omega
 
-theorem mstage_poll {g : MCfg} (ok : g.OK) {c : Conn} (hst : MStage g c) (hem : c.env.tr.endMode = .eof) :
+theorem mstage_poll {g : MCfg} (ok : g.OKu) {c : Conn} (hst : MStage g c) (hem : c.env.tr.endMode = .eof) :
     MRes g (2 * c.env.tr.input.length + 6) c := by
   cases hst with
   | parse h1 h2 h3 h4 => exact mparse_poll ok h1 hem h2 h3 h4
@@ -271,7 +283,7 @@ theorem MStage.cong {g : MCfg} {c c' : Conn} (h : MStage g c) (hph : c'.phase = 
     exact .hread (hph.trans h1) (h2.cong hmx hs) (hs.ben h3) ⟨hs.hs.trans h4.1, hs.mem h4.2⟩ (hsc.trans h5)
 
 /-- **The executor** on a wire cut inside the stream. -/
-theorem mid_run {g : MCfg} (ok : g.OK) : ∀ (A : Nat) (c : Conn) (n fuel : Nat),
+theorem mid_run {g : MCfg} (ok : g.OKu) : ∀ (A : Nat) (c : Conn) (n fuel : Nat),
     MStage g c → c.env.tr.endMode = .eof → c.env.segs = [] → ans c.env.tr ≤ A → A + 1 ≤ fuel →
     2 * c.env.tr.input.length + 6 ≤ 100000 →
     ∃ c', runTask fuel c n none = (c', "RET") ∧ MFin g c' := by
@@ -316,6 +328,7 @@ theorem mid_run_start {g : MCfg} (ok : g.OK) {c : Conn} {n fuel : Nat}
     (hsc : c.scripts = (.readAll :: g.rest, true) :: g.more) (hev : hsCount c.env.tr.events = g.hs0)
     (hf : ans c.env.tr + 1 ≤ fuel) (hlen : 2 * c.env.tr.input.length + 7 ≤ 100000) :
     ∃ c', runTask fuel c n none = (c', "RET") ∧ MFin g c' := by
+  have ok := ok.toU
   obtain ⟨f, rfl⟩ : ∃ f, fuel = f + 1 := ⟨fuel - 1, by omega⟩
   obtain ⟨hsame, hph0, hsc0, hstop0, hmx, hsg, hwk⟩ := prePoll_same c n hsegs
   rw [runTask_succ]
